@@ -378,7 +378,8 @@ def _machine_shard(item):
 STATEFUL_PROGRAMS = ["long_string_plain", "long_string_in_field", "long_string_nested", "long_decorated",
                      "many_helpers", "for_break", "while_break_else", "import_plain", "class_inherit_super",
                      "rejected:starred_comp_target_in_lambda", "rejected:attr_comp_target_in_class",
-                     "rejected:walrus_while_deep", "closure", "comprehensions"]
+                     "rejected:walrus_while_deep", "closure", "comprehensions",
+                     "equal_literals_floats", "equal_literals_ints", "equal_literals_bools", "equal_literals_strings"]
 
 
 def _pair_shard(item):
